@@ -113,6 +113,8 @@ pub struct SzxOpts {
     pub cycles: u32,
     /// ZXSTZF_FSET: the last instruction before the snapshot changed the flags (the Q latch holds F)
     pub fset: bool,
+    /// leave the SPCR chunk (border, paging latch, port 0xFE) out: every chunk is optional
+    pub no_spcr: bool,
 }
 
 impl Default for SzxOpts {
@@ -130,6 +132,7 @@ impl Default for SzxOpts {
             ay_flags: None,
             cycles: 0,
             fset: false,
+            no_spcr: false,
         }
     }
 }
@@ -154,7 +157,9 @@ pub fn szx(d: &MachineDesc, o: &SzxOpts) -> Vec<u8> {
     z.push((o.eilast as u8) | ((o.halted as u8) << 1) | ((o.fset as u8) << 2));
     z.extend(0u16.to_le_bytes()); // memptr
     chunks.push(chunk(b"Z80R", &z));
-    chunks.push(chunk(b"SPCR", &[d.border, d.latch, 0, o.fe.unwrap_or(d.border), 0, 0, 0, 0]));
+    if !o.no_spcr {
+        chunks.push(chunk(b"SPCR", &[d.border, d.latch, 0, o.fe.unwrap_or(d.border), 0, 0, 0, 0]));
+    }
     let pages: Vec<usize> = if d.m128 { (0..8).collect() } else { vec![5, 2, 0] };
     for p in pages {
         let mut data = vec![];
